@@ -50,9 +50,10 @@ theorem rate_isolation (r : Rates) (k k' : Nat × Nat) (v : Nat) (h : k' ≠ k) 
     with one of those ids is not an announcement -/
 theorem search_order (fs : List DataField) (rs : List OptionsDataRecord) (v : Bytes) (x : Nat)
     (h305 : fs.find? (fun f => !f.penProvided && f.type == 305) = some ⟨false, 305, 0, some v⟩)
-    (hv : decodeUNumber 32 v = .ok x) :
+    (hl : v.length ≤ 8) (hv : decodeUNumber 32 v = .ok x) :
     searchSamplingRate (⟨[], fs⟩ :: rs) = .ok (some x) := by
-  simp [searchSamplingRate, populate, h305, hv]
+  have : ¬ v.length > 8 := by omega
+  simp [searchSamplingRate, populate, h305, hv, this]
 
 /-- v5: the rate is the low 14 bits of the header's sampling interval -/
 theorem v5_rate (p : V5.Packet) : ∀ m ∈ processLegacy p, m.samplingRate = p.header.samplingInterval % 16384 := by
